@@ -13,6 +13,9 @@ type FSig struct {
 	Mode string // named | blank | unnamed | reserved : how the parameters of the PRESENTED function type are named
 	// NamedResults: the presented function type names its results (used for ToError)
 	NamedResults bool
+	// ZeroResults: the instrumented function returns the zero value of every result (nil for pointers,
+	// slices, maps, interfaces): a result like any other (used for Mem)
+	ZeroResults bool
 }
 
 // FItem is one functional item: source text (declarations + registration) and classification.
@@ -526,6 +529,15 @@ func MemItem(id string, s FSig) FItem {
 			rets = append(rets, fmt.Sprintf("mon.Ret[%s](%q, %d%s)", t, id, i, prefixComma(as)))
 		}
 		fmt.Fprintf(&sb, "\treturn %s\n}\n\n", join(append(rets, fmt.Sprintf("mon.FailFor(%q%s)", id, prefixComma(as)))))
+	} else if s.ZeroResults {
+		as := vars("a", 0, len(s.P))
+		fmt.Fprintf(&sb, "func impl%s(%s)%s {\n\tmon.Log(%q%s)\n", id, namedParams(s.P, "a", 0), resList(s.R), id, prefixComma(as))
+		var rets []string
+		for i, t := range s.R {
+			fmt.Fprintf(&sb, "\tvar z%d %s\n", i, t)
+			rets = append(rets, fmt.Sprintf("z%d", i))
+		}
+		fmt.Fprintf(&sb, "\treturn %s\n}\n\n", join(rets))
 	} else {
 		sb.WriteString(implDecl(id, s.P, s.R, false))
 	}
